@@ -249,11 +249,14 @@ Definition run_sexp (fuel : nat) (spec : bool) (e : sexp) : sexp :=
   | _ => A "undecodable"
   end.
 
+(* tail-recursive length (List.length overflows the OCaml stack on lines of 10^6 characters) *)
+Fixpoint len_tr (l : list N) (acc : nat) : nat := match l with [] => acc | _ :: r => len_tr r (S acc) end.
+
 Definition run_line (l : list N) : list N :=
   match parse_fast l with            (* = Sexp.parse l: Lex.parse_fast_spec *)
   | Some (SList [k; e]) =>
-      if atom_is "spec" k then print (run_sexp (S (S (List.length l))) true e)
-      else print (run_sexp (S (S (List.length l))) false (SList [k; e]))
-  | Some e => print (run_sexp (S (S (List.length l))) false e)
+      if atom_is "spec" k then print (run_sexp (len_tr l 2) true e)
+      else print (run_sexp (len_tr l 2) false (SList [k; e]))
+  | Some e => print (run_sexp (len_tr l 2) false e)
   | None => codes "unparsable"
   end.
